@@ -201,7 +201,8 @@ class AngularCoordinates(CustomNumpyArray):
         self_xyz = self.to_3d()
         other_xyz = other.to_3d()
         coord_diff_sq = (self_xyz - other_xyz) ** 2
-        dists = np.sqrt(coord_diff_sq.sum(axis=1))
+        # chords of antipodal points may exceed the diameter by rounding errors
+        dists = np.minimum(np.sqrt(coord_diff_sq.sum(axis=1)), 2.0)
         return AngularDistances.from_3d(dists)
 
 
